@@ -285,7 +285,7 @@ E2E_SLOTS = [
     (b"JSIGHT 0.3\nINFO\n  Title T\n  Version{P}\n", [[b"1.0"], [b"v2"]]),
     (b"JSIGHT 0.3\nSERVER @s\n  BaseUrl{P}\n", [[b"https://x.y/z"]]),
     (b"JSIGHT 0.3\nSERVER{P}\n  BaseUrl \"https://x.y\"\n", [[b"@prod"]]),
-    (b"JSIGHT 0.3\nGET{P}\n  200 any\n", [[b"/cats"], [b"/cats/{id}"]]),
+    (b"JSIGHT 0.3\nGET{P}\n  200 any\n", [[b"/cats"], [b"/cats/{id}"], [b"/"]]),
     (b"JSIGHT 0.3\nURL{P}\n  GET\n    200 any\n", [[b"/cats"]]),
     (b"JSIGHT 0.3\nGET /c\n  Query{P}\n    {}\n  200 any\n", [[b"page=1"], [b"page=1", b"noFormat"], [b"a=1&b=2", b"htmlFormEncoded"]]),
     (b"JSIGHT 0.3\nTYPE @t\n  {}\nGET /c\n  200{P}\n", [[b"@t"], [b"any"], [b"[@t]"]]),
@@ -302,7 +302,7 @@ E2E_SLOTS = [
     (b"JSIGHT 0.3\nMACRO @m\n(\n  200 any\n)\nGET /c\n  PASTE{P}\n", [[b"@m"]]),
 ]
 E2E_SEPS = [b" ", b"\t", b"  ", b" \t", b"\t "]
-E2E_TAILS = [b"", b" ", b"\t", b"\t# c", b" # c", b"\t\t", b" \t "]
+E2E_TAILS = [b"", b" ", b"\t", b"\t# c", b" # c", b"\t\t", b" \t ", b"#c", b"# c d", b"#"]
 
 
 def stage_e2e(ctx):
@@ -424,7 +424,35 @@ def stage_e2e_value(ctx):
     ctx.dist["e2e-value"] = {"documents": len(cases), "accepted": n_ok, "values": len(vals), "slots": len(slots)}
 
 
-STAGES = [stage_unescape, stage_appendparam, stage_scanquoted, stage_e2e, stage_e2e_bytes, stage_e2e_value]
+def stage_included_tail(ctx):
+    """an unterminated quote (and a backslash before another character) is rejected AT THAT BYTE also when the line is the last
+    one of an INCLUDED file, with blanks or CR LF after the open value: the same index as in a file of its own"""
+    if ctx.replay is not None and ctx.replay.get("stage") != "included-tail":
+        return
+    from .. import proj as P
+    tails = [b'Title "abc', b'Title "abc  ', b'Title "abc\t', b'Title "abc\r\n', b'Title "abc  \r\n', b'Title "abc \n', b'Title "a\\x"  \n', b'Title "abc\n\n  ',
+             b'GET "/a  \r\n', b'SERVER "@s \n']
+    cases = []
+    for t in tails:
+        head = b"INFO\n  " if t.startswith(b"Title") else b""
+        cases.append((t, [("a.jst", b"JSIGHT 0.3\nINCLUDE inc.jst\n"), ("inc.jst", head + t)], [("a.jst", head + t)]))
+    outs = C.run_lines("harness", "fn", [P.run_line("out=sha", p) for _, a, b in cases for p in (a, b)])
+    ctx.res.count(len(outs))
+    n = 0
+    for i, (t, a, b) in enumerate(cases):
+        (sa, da), (sb, db) = P.parse(outs[2 * i]), P.parse(outs[2 * i + 1])
+        ia = (sa, da.get("idx"), da.get("msg")) if sa == "err" else (sa,)
+        ib = (sb, db.get("idx"), db.get("msg")) if sb == "err" else (sb,)
+        if sb == "err" and C.unhx(db.get("file", "-")) == b"a.jst" and (sa != "err" or C.unhx(da.get("file", "-")) != b"inc.jst" or ia != ib):
+            ctx.spec_bad.append(("included-tail", t, "the text %r as the end of an included file is diagnosed as %s, as a file of its own as %s" % (
+                t, (sa, da.get("idx"), C.unhx(da.get("msg", "-"))[:50]), (sb, db.get("idx"), C.unhx(db.get("msg", "-"))[:50])), "same index", outs[2 * i][:120], "unescape_quote (end to end)"))
+        else:
+            n += 1
+            ctx.res.nontrivial(("included-tail", t))
+    ctx.dist["included-tail"] = {"texts": len(tails), "agreeing": n}
+
+
+STAGES = [stage_unescape, stage_appendparam, stage_scanquoted, stage_e2e, stage_e2e_bytes, stage_e2e_value, stage_included_tail]
 
 
 def run(res, tier, seed, replay):
